@@ -4,7 +4,9 @@
 # the demonstration fails with the patch and passes without it.
 raw=$(readlink -f "$1"); name=$2
 wt=/tmp/conf-$name
-git -C /repo worktree add -q --detach $wt HEAD || exit 2
+# the seeded changes were written against this commit of /repo (before the later "fix:" repairs)
+BASE=${MUT_BASE:-c38f85e}
+git -C /repo worktree add -q --detach $wt $BASE || exit 2
 cd $wt
 mkdir -p out/m; cp $raw/demo.py out/m/demo.py
 /venv/bin/python out/m/demo.py >/tmp/conf-$name.clean.log 2>&1; rc_clean=$?
@@ -23,7 +25,7 @@ try:
 except Exception as e:
     passed = set(); print('junit parse error', e)
 missing = sorted(base - passed)
-res = {"name": name, "patch_applies": ap == 0, "demo_exit_clean": rc_clean, "demo_exit_mutated": rc_mut,
+res = {"name": name, "base_commit": "c38f85e", "patch_applies": ap == 0, "demo_exit_clean": rc_clean, "demo_exit_mutated": rc_mut,
        "baseline_tests": len(base), "baseline_tests_passing_with_patch": len(base & passed), "baseline_tests_broken": missing[:10],
        "confirmed": ap == 0 and rc_clean == 0 and rc_mut != 0 and not missing}
 json.dump(res, open(raw + '/confirm.json', 'w'), indent=1)
